@@ -33,6 +33,14 @@ Theorem hooks_before_finished : forall s : state,
   (want s = pre_count s -> forall h p, nth_error (hooks s) h = Some p -> h_registered p = true -> h_acked p = true).
 Proof. exact ShutdownProofs.hooks_before_finished. Qed.
 
+(** Towards [completes] (partial): whenever the deterministic scheduler [drain] comes to rest from a
+    reachable requested state, a finite continuation has reached a completed state.  Missing for the
+    full statement: that [drain] always comes to rest (termination of the threads' programs). *)
+Theorem completes_partial : forall (s : state) (fuel : nat),
+  reachable repaired s -> requested s = true -> quiescentb repaired (drain repaired fuel s) = true ->
+  exists sched s', run repaired s sched = Some s' /\ completed s' = true.
+Proof. exact ShutdownProofs.completes_partial. Qed.
+
 (** The three windows of kvarn 0.6.3 (each schedule replayed on the real code). *)
 Theorem finished_after_all_today_refuted :
   exists s, reachable today s /\ finished s = true /\ all_done s = false.
@@ -75,6 +83,13 @@ Proof. vm_compute. auto 6. Qed.
 Example ex_hooks :
   match ex_sched [HStep 0; HStep 1] 1 1 2 0 with
   | Some s0 => let s := drain repaired 200 s0 in finished s = true /\ want s = pre_count s /\ want s = 2
+  | None => False
+  end.
+Proof. vm_compute. auto. Qed.
+(** [completes_partial] is not vacuous: the scheduler comes to rest from a state in the middle of a run *)
+Example ex_completes :
+  match ex_sched [EConn 0; LTake 0; SStep 0; LStep 0] 1 1 0 1 with
+  | Some s => requested s = true /\ quiescentb repaired (drain repaired 100 s) = true
   | None => False
   end.
 Proof. vm_compute. auto. Qed.
